@@ -1393,9 +1393,85 @@ pub fn meta(m: &mut PropMeta) {
     m.thorough_cap_s = 900.0;
 }
 
+
+/// Chains `#if e0 / #elif e1 / ... / [#else] / #endif` with a different condition on every branch: exactly the
+/// first branch whose condition holds is selected (the `#else` branch if none does), for every choice of 2..4
+/// conditions from a menu of 8 and every valuation; a `#define` in a selected / unselected branch is tested after.
+struct ElifChains {
+    max_branches: usize,
+}
+const ELIF_CONDS: [&str; 8] = ["A", "B", "C", "!A", "!B", "!C", "A && B", "A || C"];
+impl ElifChains {
+    fn decode(&self, mut idx: u64) -> (Vec<usize>, bool) {
+        let with_else = idx % 2 == 1;
+        idx /= 2;
+        let mut n = 2;
+        let mut size = 64u64;
+        while idx >= size {
+            idx -= size;
+            n += 1;
+            size *= 8;
+        }
+        let mut v = vec![];
+        for _ in 0..n {
+            v.push((idx % 8) as usize);
+            idx /= 8;
+        }
+        (v, with_else)
+    }
+    fn file(&self, idx: u64) -> FileSpec {
+        let (conds, with_else) = self.decode(idx);
+        let l = &PLAIN;
+        let mut f = FileSpec::new(l);
+        f.probe("P", l, false);
+        for (i, c) in conds.iter().enumerate() {
+            f.directive(&format!("{} {}", if i == 0 { "#if" } else { "#elif" }, ELIF_CONDS[*c]), l);
+            f.probe("P", l, i % 2 == 0);
+            if i == 1 {
+                f.directive("#define D", l);
+            }
+        }
+        if with_else {
+            f.directive("#else", l);
+            f.probe("P", l, true);
+        }
+        f.directive("#endif", l);
+        f.directive("#if D", l);
+        f.probe("P", l, false);
+        f.directive("#endif", l);
+        f.probe("P", l, true);
+        f
+    }
+}
+impl Family for ElifChains {
+    fn name(&self) -> String {
+        format!("elif-chains/2..{} branches x 8 conditions each x with/without #else x 8 symbol sets", self.max_branches)
+    }
+    fn len(&self) -> u64 {
+        2 * (2..=self.max_branches as u32).map(|n| 8u64.pow(n)).sum::<u64>()
+    }
+    fn describe(&self, idx: u64) -> Value {
+        json!({"file": self.file(idx).render(), "valuations": "all 8 subsets of {A,B,C}"})
+    }
+    fn run(&self, idx: u64) -> CaseOut {
+        let f = self.file(idx);
+        let mut out = CaseOut::new(hash_str(&format!("c06-elif-{idx}")));
+        let mut st = Stats::default();
+        for mask in 0..8u32 {
+            check_files("elif-chains", std::slice::from_ref(&f), mask, &mut out, &mut st);
+        }
+        st.finish(&mut out);
+        out.nontrivial = true;
+        let (conds, e) = self.decode(idx);
+        out.class = format!("branches={}{}", conds.len(), if e { "+else" } else { "" });
+        out
+    }
+}
+
 pub fn families(tier: &str) -> Vec<Box<dyn Family>> {
     let quick = tier == "quick";
     let mut v: Vec<Box<dyn Family>> = vec![];
+    v.push(Box::new(ElifChains { max_branches: if quick { 3 } else { 4 } }));
     // small, cheap families first so that a wall cap can only cut the largest sequence family
     v.push(Box::new(ExprTrees { depth: if quick { 3 } else { 4 }, exprs: gen_exprs(if quick { 3 } else { 4 }) }));
     v.push(Box::new(ExprTokens { max_len: if quick { 5 } else { 6 } }));
